@@ -13,6 +13,7 @@ CONSTANTS
   Askers = {}
   Queries = {}
   Hits = {}
+  HitsX = {}
   MaxSearches = 0
   FixReannounce = TRUE
   FixChildParent = TRUE
